@@ -88,7 +88,10 @@ def w_faults():
                             r = SgzReader(h)
                             h.faults = {len(h.log) + k: kind}
                             reads.run_op(r, op)
-                            r.loader.clear_cache()
+                            try:
+                                r.loader.clear_cache()
+                            except Exception:  # noqa
+                                pass
     finally:
         sc.cleanup()
 
